@@ -418,7 +418,79 @@ def listener_disconnect_case(ctx, case):
     ctx.label('listener_disconnect')
 
 
-COMPONENTS = {'history': history_case, 'real_history': real_history_case,
+def write_error_case(ctx, case):
+    """'A server disconnect packet closes the connection, runs the exit
+    callback exactly once and reports no error' - also when the server was
+    already gone while the client still had a reply to write: the write
+    fails (connection reset / broken pipe / other OS error), the disconnect
+    packet is read right after.  case {version, compress, error}"""
+    import errno
+    version = case['version']
+    ctx.ev()
+    login = [('compress', case['compress'])] \
+        if case.get('compress') is not None else []
+    srv = servers.Server({
+        'version': version, 'login': login + [('success',)],
+        'play': {'bursts': [[('keep_alive', {'keep_alive_id': 5})]],
+                 'mode': 'all', 'end': 'silent'}})
+    world = vnet.World(servers=[srv])
+    err = {'reset': ConnectionResetError(errno.ECONNRESET,
+                                         'Connection reset by peer'),
+           'pipe': BrokenPipeError(errno.EPIPE, 'Broken pipe'),
+           'aborted': ConnectionAbortedError(errno.ECONNABORTED,
+                                             'Software caused connection '
+                                             'abort'),
+           'oserror': OSError(errno.ENETDOWN, 'Network is down')}[
+               case['error']]
+    armed = []
+
+    def gone():
+        # the peer said goodbye and vanished before this write
+        srv.send_frame(*servers.encode(version, 'disconnect',
+                                       json_data='{"text":"bye"}'))
+        srv.close()
+        world.links[0].send_error = err
+    with vnet.installed(world):
+        conn, o = servers.make_connection(world, allowed_versions={version})
+
+        def arm(p):
+            if not armed:
+                armed.append(1)
+                world.links[0].before_send = gone
+        from minecraft.networking.packets import clientbound as cb
+        conn.register_packet_listener(arm, cb.play.KeepAlivePacket)
+        try:
+            conn.connect()
+        except Exception as e:
+            ctx.fail('write_error', 'K-connect-raised', case, exc=e)
+            return
+        state = world.settle()
+    if state == 'timeout':
+        from vlib.core import HarnessError
+        raise HarnessError('C11 write_error case did not settle')
+    if state != 'done':
+        ctx.fail('write_error', 'K4-thread-never-terminates', case, state)
+        return
+    if world.links[0].before_send is not None or not armed:
+        from vlib.core import HarnessError
+        raise HarnessError('C11 write_error: the failing write never '
+                           'happened')
+    if o.exceptions:
+        ctx.fail('write_error', 'K4-error-on-clean-disconnect', case,
+                 repr(o.exceptions[0][0]), 'no error')
+        return
+    if o.exits != 1:
+        ctx.fail('write_error', 'K4-exit-callback', case, o.exits, 1)
+        return
+    if not world.links[0].closed_by_client():
+        ctx.fail('write_error', 'K4-link-left-open', case)
+        return
+    ctx.nt('write_error', repr(case))
+    ctx.label('write_error_then_disconnect')
+
+
+COMPONENTS = {'write_error': write_error_case,
+              'history': history_case, 'real_history': real_history_case,
               'listener_disconnect': listener_disconnect_case}
 
 
@@ -556,6 +628,17 @@ def t_real(ctx, versions, n):
                'real')
 
 
+def t_write_error(ctx, versions):
+    k = 0
+    for v in versions:
+        for e in ('reset', 'pipe', 'aborted', 'oserror'):
+            k += 1
+            write_error_case(ctx, {'version': v, 'error': e,
+                                   'compress': [None, 0, 64][k % 3]})
+    ctx.exhaustive_done('write fails with 4 OS errors, then the disconnect '
+                        'packet is read: every release')
+
+
 def t_listener_disconnect(ctx, versions, n):
     for v in versions:
         for d in range(3):
@@ -591,6 +674,7 @@ def tasks(tier):
     for i in range(1 if q else 4):
         tl.append(('real_%d' % i, t_real,
                    dict(versions=rel, n=12 if q else 150)))
+    tl.append(('write_error', t_write_error, dict(versions=rel)))
     tl.append(('listener_disconnect', t_listener_disconnect,
                dict(versions=rel[::3] if q else rel, n=60 if q else 1500)))
     for i in range(8 if q else 16):
